@@ -130,10 +130,12 @@ func init() {
 			kdf, aead := uint64(g.forceInt(a[2])), uint64(g.forceInt(a[3]))
 			enc := p.freshBytes(32, "enc")
 			// an honest encapsulated key is never the all-zero point
+			// an honest encapsulated key is never a low-order point (modelled: u=0, u=1)
 			nz := p.ts.False
-			for _, e := range enc {
+			for _, e := range enc[1:] {
 				nz = p.ts.Or(nz, p.ts.Not(p.ts.Eq(e.term(), p.ts.Const(8, 0))))
 			}
+			nz = p.ts.Or(nz, p.ts.Ult(p.ts.Const(8, 1), enc[0].term()))
 			p.assert(nz)
 			s := &hpkeSender{priv: priv, kdf: kdf, aead: aead, info: cloneVals(a[4].slice()), enc: enc}
 			h := p.hp()
@@ -157,6 +159,12 @@ func init() {
 		},
 		"vHpkeOpens": func(g *Goroutine, c *frame, fn *ssa.Function, a []Value) (Value, bool) {
 			return mkInt(64, uint64(g.p.hp().opens)), true
+		},
+		// vLimitCiphertextLengths(n): cut paths that derive more than n lengths from
+		// ciphertext / encapsulated-key bytes (a stated bound, reported as "cut").
+		"vLimitCiphertextLengths": func(g *Goroutine, c *frame, fn *ssa.Function, a []Value) (Value, bool) {
+			g.p.ctLenLimit = int(g.forceInt(a[0]))
+			return Value{}, true
 		},
 		"vNote": func(g *Goroutine, c *frame, fn *ssa.Function, a []Value) (Value, bool) {
 			return Value{}, true
